@@ -39,8 +39,9 @@ def r1(run: Run, src):
     loc = loc_of(fi.module.path, st)
     if not isinstance(key, ast.JoinedStr):
         raise AnalysisError('C19.R1', 'the report key is not an f-string')
-    rc = RoleChecker(fi.node, {'wb': None}, fields, qual=fi.qualname)
-    rc.self_attrs['wb.worksheets'] = Level(SHEET, 'worksheet')
+    wbv = c18._workbook_var(fi)
+    rc = RoleChecker(fi.node, {wbv: None}, fields, qual=fi.qualname)
+    rc.self_attrs[f'{wbv}.worksheets'] = Level(SHEET, 'worksheet')
     rc.run()
     # evaluate the key in the environment at the end of the analysis (loop variables keep their roles)
     parts = []
